@@ -2,18 +2,37 @@
 //! expected observation), executes the real slicec / slice-codec code, and reports
 //!   DIFF\t<case line>\t<reason>      model and implementation disagree
 //!   ORACLE\t<case line>\t<reason>    the property predicate fails on the implementation's own output
+//!   MODELCEX\t<case>\t<reason>       the model itself violates the stated property (K lines of the driver)
 //!   STATS\t<json>                    totals
+//! Engines that run the compiler execute every case in a worker process (`runner --worker <engine>`), so that
+//! a stack overflow, an abort or a hang is observed and attributed to its case instead of killing the run.
 mod buffers;
 mod codec;
+mod compile;
+mod compile_ext;
 mod dynval;
+mod proj_c03;
+mod proj_c04;
+mod proj_c05;
+mod proj_c08;
+mod proj_c13;
+mod proj_c16;
+mod proj_c20;
 // the binary-private modules of slicec, compiled from the repository's current files
 #[path = "/repo/slicec/src/definition_types.rs"]
 #[allow(dead_code, unused_imports)]
 mod definition_types;
 
+use codec::CaseResult;
 use std::collections::{BTreeMap, HashSet};
 use std::hash::{Hash, Hasher};
-use std::io::{BufRead, Write};
+use std::io::{BufRead, BufReader, Write};
+use std::process::{Child, Command, Stdio};
+use std::sync::mpsc;
+use std::time::Duration;
+
+const ISOLATED: [&str; 1] = ["compile"];
+const CASE_TIMEOUT_S: u64 = 20;
 
 pub struct Stats {
     pub total: u64,
@@ -37,10 +56,77 @@ fn json_str(s: &str) -> String {
     o
 }
 
+fn run_case(engine: &str, f: &[&str]) -> CaseResult {
+    match (engine, f) {
+        ("codec", ["enc", _fam, ty, val, exp]) => codec::run_enc(ty, val, exp),
+        ("codec", ["dec", _fam, ty, hx, exp]) => codec::run_dec(ty, hx, exp),
+        ("buffers", ["hist", _fam, target, ops, exp]) => buffers::run_hist(target, ops, exp),
+        ("buffers", ["src", _fam, buf, ops, exp]) => buffers::run_src(buf, ops, exp),
+        ("codec", ["skip", _fam, hx, exp]) => codec::run_skip(hx, exp),
+        ("codec", ["reply", _fam, hx, exp]) => codec::run_reply(hx, exp),
+        ("compile", ["compile", _fam, proj, opts, files, exp]) => compile::run_compile(proj, opts, files, exp),
+        _ => CaseResult { actual: "?".into(), diff: Some("unknown case shape".into()), oracle: None, nontrivial: false },
+    }
+}
+
+fn clean(s: &str) -> String { s.replace(['\t', '\n', '\r'], " ") }
+
+/// worker protocol: one line in, one line out: `R\t<nontrivial 0|1>\t<diff or ->\t<oracle or ->`
+fn worker(engine: &str) {
+    let stdin = std::io::stdin();
+    let stdout = std::io::stdout();
+    let mut out = stdout.lock();
+    for line in stdin.lock().lines() {
+        let line = line.expect("stdin");
+        let f: Vec<&str> = line.split('\t').collect();
+        let res = run_case(engine, &f);
+        writeln!(out, "R\t{}\t{}\t{}", res.nontrivial as u8, res.diff.map_or("-".to_string(), |d| clean(&d)), res.oracle.map_or("-".to_string(), |d| clean(&d))).unwrap();
+        out.flush().unwrap();
+    }
+}
+
+struct Isolated { child: Child, rx: mpsc::Receiver<String> }
+
+fn spawn_worker(engine: &str) -> Isolated {
+    let mut child = Command::new(std::env::current_exe().unwrap()).arg("--worker").arg(engine)
+        .stdin(Stdio::piped()).stdout(Stdio::piped()).stderr(Stdio::null()).spawn().expect("spawn worker");
+    let stdout = child.stdout.take().unwrap();
+    let (tx, rx) = mpsc::channel();
+    std::thread::spawn(move || { for l in BufReader::new(stdout).lines() { match l { Ok(l) => { if tx.send(l).is_err() { break; } } Err(_) => break } } });
+    Isolated { child, rx }
+}
+
+fn run_isolated(w: &mut Option<Isolated>, engine: &str, line: &str) -> CaseResult {
+    if w.is_none() { *w = Some(spawn_worker(engine)); }
+    let iso = w.as_mut().unwrap();
+    let sent = iso.child.stdin.as_mut().map(|s| writeln!(s, "{}", line).and_then(|_| s.flush()).is_ok()).unwrap_or(false);
+    let reply = if sent { iso.rx.recv_timeout(Duration::from_secs(CASE_TIMEOUT_S)) } else { Err(mpsc::RecvTimeoutError::Disconnected) };
+    match reply {
+        Ok(l) => {
+            let p: Vec<&str> = l.split('\t').collect();
+            let opt = |s: &str| if s == "-" { None } else { Some(s.to_string()) };
+            CaseResult { actual: String::new(), nontrivial: p.get(1) == Some(&"1"), diff: p.get(2).and_then(|s| opt(s)), oracle: p.get(3).and_then(|s| opt(s)) }
+        }
+        Err(e) => {
+            let what = match e {
+                mpsc::RecvTimeoutError::Timeout => { let _ = iso.child.kill(); format!("no verdict within {} s (hang)", CASE_TIMEOUT_S) }
+                mpsc::RecvTimeoutError::Disconnected => "process died".to_string(),
+            };
+            let status = iso.child.wait().map(|s| format!("{:?}", s)).unwrap_or_default();
+            *w = None;
+            CaseResult { actual: "crash".into(), nontrivial: true, diff: Some(format!("implementation crashed: {} ({})", what, status)),
+                oracle: Some(format!("the compiler did not return a verdict: {} ({})", what, status)) }
+        }
+    }
+}
+
 fn main() {
     std::panic::set_hook(Box::new(|_| {})); // panics are observations, not noise
     let args: Vec<String> = std::env::args().collect();
+    if args.get(1).map(String::as_str) == Some("--worker") { worker(args.get(2).map(String::as_str).unwrap_or("")); return; }
     let engine = args.get(1).map(String::as_str).unwrap_or("");
+    let isolated = ISOLATED.contains(&engine);
+    let mut iso: Option<Isolated> = None;
     let stdin = std::io::stdin();
     let stdout = std::io::stdout();
     let mut out = std::io::BufWriter::new(stdout.lock());
@@ -54,20 +140,12 @@ fn main() {
             writeln!(out, "MODELCEX\t{}\t{}", f[..f.len() - 1].join(" "), f[f.len() - 1]).unwrap();
             continue;
         }
-        let res = match (engine, f.as_slice()) {
-            ("codec", ["enc", _fam, ty, val, exp]) => codec::run_enc(ty, val, exp),
-            ("codec", ["dec", _fam, ty, hx, exp]) => codec::run_dec(ty, hx, exp),
-            ("buffers", ["hist", _fam, target, ops, exp]) => buffers::run_hist(target, ops, exp),
-            ("buffers", ["src", _fam, buf, ops, exp]) => buffers::run_src(buf, ops, exp),
-            ("codec", ["skip", _fam, hx, exp]) => codec::run_skip(hx, exp),
-            ("codec", ["reply", _fam, hx, exp]) => codec::run_reply(hx, exp),
-            _ => codec::CaseResult { actual: "?".into(), diff: Some("unknown case shape".into()), oracle: None, nontrivial: false },
-        };
+        let res = if isolated { run_isolated(&mut iso, engine, &line) } else { run_case(engine, &f) };
         st.total += 1;
         let fam = f.get(1).copied().unwrap_or("?").to_string();
         *st.families.entry(fam.clone()).or_insert(0) += 1;
         let s = st.samples.entry(fam).or_default();
-        if s.len() < 2 { s.push(line.clone()); }
+        if s.len() < 2 { s.push(if line.len() > 600 { format!("{}…", line.chars().take(600).collect::<String>()) } else { line.clone() }); }
         if res.nontrivial {
             let mut h = std::collections::hash_map::DefaultHasher::new();
             f[..f.len() - 1].hash(&mut h);
